@@ -26,6 +26,9 @@ WORD_URL = re.compile(r"https?(?=://)|[A-Za-z]+?(?=https?://)|[A-Za-z]+")
 _mode = {"url": False}
 
 
+DEF_SHAPE = re.compile(r"""\A[ \t]{0,3}\[(?:[^\[\]\\]|\\.)+\]:[ \t]*\n?[ \t]*(?:<[^<>\n]*>|[^\s<][^\s]*)(?:[ \t]*\n?[ \t]*(?:"(?:[^"\\]|\\.)*"|'(?:[^'\\]|\\.)*'))?[ \t]*\n?\Z""", re.S)
+
+
 def words(s):
     # with the url plugin a bare URL starts a token even in the middle of a letter run: segment the same way on both sides
     return Counter((WORD_URL if _mode["url"] else WORD).findall(s))
@@ -69,7 +72,20 @@ def refdef_block(rng):
         out[-1] += " " + q % w() + " " + w()                         # trailing text after the title: not a definition at all
     out.append("")
     out.append("see [%s] and [%s][%s]" % (label, w(), label))
+    if rng.random() < 0.35:
+        # a later line that starts like a definition of the same (already defined) label but is not one: ordinary text
+        out.append("")
+        out.append("%s[%s]: %s %s %s" % (rng.choice(["", "> ", "- "]), label, w(), w(), w()))
     return out
+
+
+def nested_inline(rng):
+    """links, images and code nested in each other's text (destinations, titles and labels of the inner ones are document words too)"""
+    w = lambda: rng.choice(gen.WORDS)
+    inner = rng.choice(["[%s](/%s '%s')" % (w(), w(), w()), "[%s][foo]" % w(), "![%s](/%s \"%s\")" % (w(), w(), w()), "`%s`" % w(), "*%s*" % w(), "<%s@%s.com>" % (w(), w())])
+    outer = rng.choice(["![%s %s %s](/%s)", "[%s %s %s](/%s)", "![%s %s %s][bar] %s", "*%s %s %s* %s", "[%s %s %s]: %s"])
+    line = outer % (w(), inner, w(), w())
+    return [line, "", "[foo]: /%s '%s'" % (w(), w()), "[bar]: </%s>" % w(), ""]
 
 
 def doc(rng):
@@ -83,6 +99,8 @@ def doc(rng):
             lines += table_block(rng) + [""]; continue
         if r0 < 0.12:
             lines += deflist_block(rng) + [""]; continue
+        if r0 < 0.17:
+            lines += nested_inline(rng); continue
         if rng.random() < 0.15:
             lines.append(""); continue
         parts = [rng.choice(STARTS)]
@@ -148,6 +166,10 @@ def oracle(ctx, docs):
             got, where = Counter(), []
             leaf_words(toks, got, where)
             for sl, key, stored in st.env.get("__verif_defs__", []):
+                if not DEF_SHAPE.match(sl):
+                    # the hook only says what the handler consumed; whether that text IS a definition is judged here,
+                    # independently: label, colon, a destination, optionally a quoted title, nothing else
+                    continue
                 got.update(words(sl))
                 if stored:
                     ent = st.env["ref_links"].get(key) or {}
